@@ -489,10 +489,13 @@ func (ctx *checkCtx) classifyReplay(o *OblResult, rc ReplayCase, out ReplayOutco
 		ctx.replayOK++
 		ctx.knownLines = append(ctx.knownLines, fmt.Sprintf("KNOWN-FINDING: property=%s %s: %s", ctx.prop, id, kf.What))
 	case "unwind":
-		if out.Hang {
+		if out.Hang || out.Panic != "" {
 			p := ctx.saveReplay(rc)
 			o.Verdict = "violation"
 			o.Detail = "native run does not terminate"
+			if !out.Hang {
+				o.Detail = "native run dies (unbounded recursion ends in a stack overflow): " + out.Panic
+			}
 			ctx.violations = append(ctx.violations, fmt.Sprintf("VIOLATION property=%s replay=%s", ctx.prop, p))
 		}
 	default:
